@@ -524,3 +524,46 @@
         core::mem::forget(r);
         core::mem::forget(res);
     }
+
+    /// C25 inductive step with two stored samples.  Same reader; the instance holds two samples at source timestamps t0 and
+    /// t1 that are at least sep apart (the invariant), stored in an arbitrary reception order; an incoming sample of that
+    /// instance at an arbitrary timestamp t (before, between, after, equal): it is stored iff it is at least sep away from
+    /// BOTH stored samples, so the invariant "pairwise at least minimum_separation apart" is re-established by every reception.
+    /// @props C25
+    /// @kind bounded
+    /// @tier quick
+    /// @timeout 1500
+    /// @bounds 2 stored samples of one instance, timestamps whole seconds 0..=255, separation 1..=3 s
+    /// @fn DataReaderEntity::add_reader_change
+    #[cfg_attr(kani, kani::proof)]
+    #[cfg_attr(kani, kani::stub(alloc::fmt::format, verif_support::fmt_format_stub))]
+    fn c25_time_based_filter_two_stored_samples() {
+        let sep: u8 = kani::any();
+        kani::assume(sep >= 1 && sep <= 3);
+        let mut r = mk_reader(HistoryQosPolicyKind::KeepAll, DestinationOrderQosPolicyKind::ByReceptionTimestamp, unlimited());
+        r.qos.time_based_filter = TimeBasedFilterQosPolicy {
+            minimum_separation: DurationKind::Finite(crate::infrastructure::time::Duration::new(sep as i32, 0)),
+        };
+        let s0: u8 = kani::any();
+        let s1: u8 = kani::any();
+        let d01: u8 = if s1 >= s0 { s1 - s0 } else { s0 - s1 };
+        kani::assume(d01 >= sep); // invariant on the pre-state; reception order (s0 first) is arbitrary w.r.t. source time
+        r.sample_list.push(stored(10, ih(1), Time::new(s0 as i32, 0), ChangeKind::Alive));
+        r.sample_list.push(stored(11, ih(1), Time::new(s1 as i32, 0), ChangeKind::Alive));
+        let t: u8 = kani::any();
+        let res = r.add_reader_change(Guid::new([7; 12], crate::transport::types::EntityId::new([7, 7, 7], 7)), payload(12),
+            ChangeKind::Alive, *ih(1).as_ref(), Some(Time::new(t as i32, 0)), Time::new(1000, 0));
+        let d0: u8 = if t >= s0 { t - s0 } else { s0 - t };
+        let d1: u8 = if t >= s1 { t - s1 } else { s1 - t };
+        let code = outcome(&res);
+        if d0 >= sep && d1 >= sep {
+            assert!(code == 0 && r.sample_list.len() == 3, "C25: a sample at least minimum_separation away from every stored sample of its instance is not filtered");
+        } else {
+            assert!(code == 1 && r.sample_list.len() == 2, "C25: a sample closer than minimum_separation to ANY stored sample of its instance is filtered");
+        }
+        kani::cover!(t > s0 && t < s1 && code == 0);
+        kani::cover!(t > s0 && t < s1 && code == 1 && d0 >= sep);
+        kani::cover!(t < s0 && t < s1);
+        core::mem::forget(r);
+        core::mem::forget(res);
+    }
